@@ -1,7 +1,9 @@
 //! PacingConsts: the constants of src/metrics.rs that the Lean model copies by hand —
 //! `Pacing::DEFAULT`, `Pacing::STOP_THE_WORLD` (field initialisers as exact rationals parsed from
 //! the decimal literals), which constant `impl Default for Pacing` returns, and the initial value
-//! `Metrics::new()` gives every field of `MetricsInner`.
+//! `Metrics::new()` gives every numeric / `Pacing` state cell (the constructor expression evaluated
+//! structurally: `Default` derives and impls are followed through `Rc` / `Cell` / nested private
+//! structs, so neither a field nor a helper-struct name is pinned).
 //!
 //! Fails closed: an initialiser that is not a literal, a missing / extra field, a `Default` impl or
 //! a `Metrics::new` body of another shape is emitted as an `unclassified` entry **and** as the
@@ -20,20 +22,6 @@ pub const PACING_FIELDS: &[(&str, &str, bool)] = &[
     ("drop_factor", "dropFactor", false),
     ("free_factor", "freeFactor", false),
 ];
-pub const METRICS_FIELDS: &[(&str, &str, &str)] = &[
-    // (rust field, lean field, kind: pacing | nat | rat)
-    ("pacing", "pacing", "pacing"),
-    ("total_gcs", "totalGcs", "nat"),
-    ("wakeup_amount", "wakeup", "rat"),
-    ("artificial_debt", "artificial", "rat"),
-    ("allocated_gcs", "allocated", "nat"),
-    ("dropped_gcs", "dropped", "nat"),
-    ("freed_gcs", "freed", "nat"),
-    ("marked_gcs", "marked", "nat"),
-    ("traced_gcs", "traced", "nat"),
-    ("remembered_gcs", "remembered", "nat"),
-];
-
 /// An exact value read from a literal: numerator / denominator (denominator a power of ten).
 #[derive(Clone, Debug)]
 pub struct Exact {
@@ -46,7 +34,8 @@ pub struct Exact {
 pub struct Table {
     pub consts: Vec<(String, Vec<(String, Option<Exact>, String)>)>, // (const name, [(rust field, value, source text)])
     pub default_impl: String,   // name of the constant `impl Default for Pacing` returns, "" if unknown
-    pub metrics_new: Vec<(String, String, String)>, // (rust field, lean value text, source text)
+    pub metrics_cells: Vec<(String, String, String)>,   // numeric state cells of `Metrics::new()`: (path, lean value text, source text)
+    pub metrics_pacings: Vec<(String, String, String)>, // `Pacing` cells: (path, lean value text, source text)
     pub unclassified: Vec<String>,
 }
 
@@ -92,7 +81,7 @@ pub fn parse_exact(e: &Expr) -> Option<Exact> {
 }
 
 pub fn extract(_c: &Crate, items: &Items, _raw: &crate::raw::Raw) -> Table {
-    let mut t = Table { consts: vec![], default_impl: String::new(), metrics_new: vec![], unclassified: vec![] };
+    let mut t = Table { consts: vec![], default_impl: String::new(), metrics_cells: vec![], metrics_pacings: vec![], unclassified: vec![] };
     let in_metrics = |m: &Vec<String>| m.last().map(|x| x == "metrics").unwrap_or(false);
     // the two constants
     for cname in ["DEFAULT", "STOP_THE_WORLD"] {
@@ -157,14 +146,6 @@ pub fn extract(_c: &Crate, items: &Items, _raw: &crate::raw::Raw) -> Table {
                 }
             }
         }
-        if in_metrics(m) && s.ident == "MetricsInner" {
-            let names: Vec<String> = s.fields.iter().filter_map(|f| f.ident.as_ref().map(|x| x.to_string())).collect();
-            for n in &names {
-                if !METRICS_FIELDS.iter().any(|(rf, _, _)| rf == n) {
-                    t.unclassified.push(format!("struct MetricsInner has a field `{n}` unknown to the model"));
-                }
-            }
-        }
     }
     // impl Default for Pacing
     let mut saw_default = false;
@@ -193,91 +174,238 @@ pub fn extract(_c: &Crate, items: &Items, _raw: &crate::raw::Raw) -> Table {
     if !saw_default {
         t.unclassified.push("impl Default for Pacing not found".into());
     }
-    // Metrics::new() = Self(Default::default()), MetricsInner: Default field by field
-    let mut new_ok = false;
+    // Metrics::new(): evaluated structurally.  The constructor (inherent fn of `Metrics` without
+    // receiver returning the type) must build the value from `Default::default()` / `X::new(..)` /
+    // literals; `Default` derives and impls are followed through wrappers (`Rc`, `Cell`, …) and
+    // nested structs down to the numeric / `Pacing` state cells, which are listed with their path
+    // and initial value.  No field or helper-struct name is pinned.
+    let mut ev = Eval { items, cells: vec![], pacings: vec![], unclassified: vec![], depth: 0 };
+    let mut ctors = 0;
     for (m, i) in &items.impls {
         if !in_metrics(m) || i.trait_.is_some() || type_path(&i.self_ty).map(last_seg).as_deref() != Some("Metrics") {
             continue;
         }
         for it in &i.items {
-            if let ImplItem::Fn(f) = it {
-                if f.sig.ident == "new" {
-                    let b = toks(&f.block).replace(' ', "");
-                    if b == "{Self(Default::default())}" {
-                        new_ok = true;
-                    } else {
-                        t.unclassified.push(format!("Metrics::new has an unexpected body: {}", toks(&f.block)));
+            let ImplItem::Fn(f) = it else { continue };
+            let returns_self = match &f.sig.output {
+                ReturnType::Type(_, ty) => matches!(type_path(ty).map(last_seg).as_deref(), Some("Self") | Some("Metrics")),
+                _ => false,
+            };
+            if f.sig.receiver().is_some() || !f.sig.inputs.is_empty() || !returns_self {
+                continue;
+            }
+            ctors += 1;
+            if ctors > 1 {
+                ev.unclassified.push(format!("Metrics has more than one parameterless constructor (`{}`)", f.sig.ident));
+                continue;
+            }
+            match (f.block.stmts.len(), f.block.stmts.last()) {
+                (1, Some(Stmt::Expr(e, None))) => {
+                    let ty: Type = parse_quote!(Metrics);
+                    ev.init(e, &ty, "");
+                }
+                _ => ev.unclassified.push(format!("Metrics::{} is not a single expression: {}", f.sig.ident, toks(&f.block))),
+            }
+        }
+    }
+    if ctors == 0 {
+        ev.unclassified.push("Metrics::new not found (no parameterless inherent constructor of `Metrics`)".into());
+    }
+    t.unclassified.extend(ev.unclassified);
+    t.metrics_cells = ev.cells;
+    t.metrics_pacings = ev.pacings;
+    t
+}
+
+/// Structural evaluation of an initialiser expression at a type, down to numeric / `Pacing` cells.
+struct Eval<'a> {
+    items: &'a Items,
+    cells: Vec<(String, String, String)>,
+    pacings: Vec<(String, String, String)>,
+    unclassified: Vec<String>,
+    depth: usize,
+}
+
+const WRAPPERS: &[&str] = &["Rc", "Box", "Cell", "UnsafeCell", "RefCell", "Arc"];
+const NUMERIC: &[&str] = &["usize", "u8", "u16", "u32", "u64", "u128", "isize", "i8", "i16", "i32", "i64", "i128", "f32", "f64"];
+
+fn join(path: &str, f: &str) -> String {
+    if path.is_empty() { f.to_string() } else { format!("{path}.{f}") }
+}
+
+fn generic_arg0(p: &Path) -> Option<&Type> {
+    match &p.segments.last()?.arguments {
+        PathArguments::AngleBracketed(a) if a.args.len() == 1 => match a.args.first()? {
+            GenericArgument::Type(t) => Some(t),
+            _ => None,
+        },
+        _ => None,
+    }
+}
+
+impl<'a> Eval<'a> {
+    fn fail(&mut self, path: &str, why: String) {
+        self.unclassified.push(why);
+        // fail closed: no counter of the model starts negative
+        self.cells.push((path.to_string(), "(-1 : Rat) /- unclassified -/".to_string(), String::new()));
+    }
+
+    fn find_struct(&self, name: &str) -> Option<&'a ItemStruct> {
+        let mut it = self.items.structs.iter().filter(|(_, s)| s.ident == name);
+        let first = it.next().map(|(_, s)| s);
+        if it.next().is_some() { None } else { first }
+    }
+
+    /// The value `<ty as Default>::default()`.
+    fn default_of(&mut self, ty: &Type, path: &str) {
+        self.depth += 1;
+        if self.depth > 32 {
+            self.depth -= 1;
+            return self.fail(path, format!("Metrics::new: type nesting too deep at `{path}`"));
+        }
+        match ty {
+            Type::Paren(p) => self.default_of(&p.elem, path),
+            Type::Group(p) => self.default_of(&p.elem, path),
+            Type::Tuple(t) => {
+                for (k, e) in t.elems.iter().enumerate() {
+                    self.default_of(e, &join(path, &k.to_string()));
+                }
+            }
+            Type::Path(tp) if tp.qself.is_none() => {
+                let name = last_seg(&tp.path);
+                if WRAPPERS.contains(&name.as_str()) {
+                    match generic_arg0(&tp.path) {
+                        Some(inner) => self.default_of(inner, path),
+                        None => self.fail(path, format!("Metrics::new: `{}` at `{path}` is not understood", toks(ty))),
+                    }
+                } else if NUMERIC.contains(&name.as_str()) && tp.path.segments.len() == 1 {
+                    self.cells.push((path.to_string(), "(0 : Rat)".to_string(), format!("<{name} as Default>::default()")));
+                } else if name == "Pacing" {
+                    self.pacings.push((path.to_string(), "pacingOfDefaultImpl".to_string(), "<Pacing as Default>::default()".to_string()));
+                } else if let Some(st) = self.find_struct(&name) {
+                    self.default_of_struct(st, path);
+                } else {
+                    self.fail(path, format!("Metrics::new: the default value of type `{}` (at `{path}`) is unknown to the translator", toks(ty)));
+                }
+            }
+            other => self.fail(path, format!("Metrics::new: the default value of type `{}` (at `{path}`) is unknown to the translator", toks(other))),
+        }
+        self.depth -= 1;
+    }
+
+    fn default_of_struct(&mut self, st: &'a ItemStruct, path: &str) {
+        let name = st.ident.to_string();
+        let mut found = None;
+        let mut n = 0;
+        for (_, i) in &self.items.impls {
+            let tr = i.trait_.as_ref().map(|x| last_seg(&x.1)).unwrap_or_default();
+            if tr != "Default" || type_path(&i.self_ty).map(last_seg).as_deref() != Some(name.as_str()) {
+                continue;
+            }
+            for it in &i.items {
+                if let ImplItem::Fn(f) = it {
+                    if f.sig.ident == "default" {
+                        n += 1;
+                        found = Some(f);
                     }
                 }
             }
         }
-    }
-    if !new_ok && !t.unclassified.iter().any(|u| u.starts_with("Metrics::new")) {
-        t.unclassified.push("Metrics::new not found".into());
-    }
-    // the newtype must wrap Rc<MetricsInner>
-    for (m, s) in &items.structs {
-        if in_metrics(m) && s.ident == "Metrics" {
-            let f0 = s.fields.iter().next().map(|f| toks(&f.ty).replace(' ', "")).unwrap_or_default();
-            if f0 != "Rc<MetricsInner>" {
-                t.unclassified.push(format!("struct Metrics wraps `{f0}`, not Rc<MetricsInner>"));
+        let Some(f) = found.filter(|_| n == 1) else {
+            return self.fail(path, format!("Metrics::new: exactly one `impl Default for {name}` expected, found {n}"));
+        };
+        match (f.block.stmts.len(), f.block.stmts.last()) {
+            (1, Some(Stmt::Expr(e, None))) => {
+                let ty: Type = Type::Path(TypePath { qself: None, path: st.ident.clone().into() });
+                self.init(e, &ty, path)
             }
+            _ => self.fail(path, format!("<{name} as Default>::default is not a single expression: {}", toks(&f.block))),
         }
     }
-    let mut inner_default = false;
-    for (m, i) in &items.impls {
-        let tr = i.trait_.as_ref().map(|x| last_seg(&x.1)).unwrap_or_default();
-        if !in_metrics(m) || tr != "Default" || type_path(&i.self_ty).map(last_seg).as_deref() != Some("MetricsInner") {
-            continue;
+
+    fn is_default_call(e: &Expr) -> bool {
+        match e {
+            Expr::Call(c) if c.args.is_empty() => match &*c.func {
+                Expr::Path(p) => p.path.segments.last().map(|s| s.ident == "default").unwrap_or(false),
+                _ => false,
+            },
+            _ => false,
         }
-        for it in &i.items {
-            let ImplItem::Fn(f) = it else { continue };
-            if f.sig.ident != "default" {
-                continue;
-            }
-            inner_default = true;
-            let lit = match f.block.stmts.last() {
-                Some(Stmt::Expr(Expr::Struct(s), None)) if last_seg(&s.path) == "MetricsInner" || last_seg(&s.path) == "Self" => Some(s),
-                _ => None,
-            };
-            let Some(s) = lit else {
-                t.unclassified.push(format!("<MetricsInner as Default>::default is not a struct literal: {}", toks(&f.block)));
-                continue;
-            };
-            for (rf, _, kind) in METRICS_FIELDS {
-                let init = s.fields.iter().find(|fv| toks(&fv.member) == *rf);
-                let src = init.map(|fv| toks(&fv.expr)).unwrap_or_default();
-                let is_default_call = src.replace(' ', "").trim_start_matches("::").ends_with("Default::default()");
-                let value = match (init, *kind) {
-                    (None, _) => {
-                        t.unclassified.push(format!("MetricsInner::default: field `{rf}` is not initialised"));
-                        "-1".to_string()
+    }
+
+    /// The value of initialiser `e` at type `ty`.
+    fn init(&mut self, e: &Expr, ty: &Type, path: &str) {
+        match e {
+            Expr::Paren(p) => return self.init(&p.expr, ty, path),
+            Expr::Group(p) => return self.init(&p.expr, ty, path),
+            _ => {}
+        }
+        if Self::is_default_call(e) {
+            return self.default_of(ty, path);
+        }
+        let tname = type_path(ty).map(last_seg).unwrap_or_default();
+        // `Wrapper::new(inner)`
+        if let Expr::Call(c) = e {
+            if let Expr::Path(p) = &*c.func {
+                let segs: Vec<String> = p.path.segments.iter().map(|s| s.ident.to_string()).collect();
+                let k = segs.len();
+                if k >= 2 && segs[k - 1] == "new" && WRAPPERS.contains(&segs[k - 2].as_str()) && c.args.len() == 1 && segs[k - 2] == tname {
+                    if let Some(inner) = type_path(ty).and_then(generic_arg0) {
+                        return self.init(&c.args[0], inner, path);
                     }
-                    (Some(_), "pacing") if is_default_call => "pacingOfDefaultImpl".to_string(),
-                    (Some(_), _) if is_default_call => "0".to_string(), // Cell<usize> / Cell<f64>: zero
-                    (Some(fv), k) => {
-                        // `Cell::new(<literal>)` or a bare literal
-                        let inner: Option<&Expr> = match &fv.expr {
-                            Expr::Call(c) if toks(&*c.func).replace(' ', "").ends_with("Cell::new") && c.args.len() == 1 => Some(&c.args[0]),
-                            other => Some(other),
-                        };
-                        match (inner.and_then(parse_exact), k) {
-                            (Some(x), "nat") | (Some(x), "rat") => exact_lean(&x, k == "nat"),
-                            _ => {
-                                t.unclassified.push(format!("MetricsInner::default: initialiser `{src}` of `{rf}` is not understood"));
-                                "-1".to_string()
-                            }
+                }
+            }
+        }
+        if NUMERIC.contains(&tname.as_str()) {
+            if let Some(x) = parse_exact(e) {
+                self.cells.push((path.to_string(), exact_lean(&x, false), toks(e)));
+                return;
+            }
+        }
+        if tname == "Pacing" {
+            if let Expr::Path(p) = e {
+                let segs: Vec<String> = p.path.segments.iter().map(|s| s.ident.to_string()).collect();
+                let k = segs.len();
+                if k >= 2 && (segs[k - 2] == "Pacing" || segs[k - 2] == "Self") {
+                    let v = match segs[k - 1].as_str() {
+                        "DEFAULT" => Some("pacingDefault"),
+                        "STOP_THE_WORLD" => Some("pacingStw"),
+                        _ => None,
+                    };
+                    if let Some(v) = v {
+                        self.pacings.push((path.to_string(), v.to_string(), toks(e)));
+                        return;
+                    }
+                }
+            }
+        }
+        // literal of a crate struct: named fields or tuple constructor
+        if let Some(st) = self.find_struct(&tname) {
+            let is_self = |p: &Path| { let l = last_seg(p); l == "Self" || l == tname };
+            match e {
+                Expr::Struct(s) if is_self(&s.path) && s.rest.is_none() => {
+                    for f in st.fields.iter() {
+                        let fname = f.ident.as_ref().map(|x| x.to_string()).unwrap_or_default();
+                        match s.fields.iter().find(|fv| toks(&fv.member) == fname) {
+                            Some(fv) => self.init(&fv.expr, &f.ty, &join(path, &fname)),
+                            None => self.fail(&join(path, &fname), format!("{tname} literal: field `{fname}` is not initialised")),
                         }
                     }
-                };
-                t.metrics_new.push((rf.to_string(), value, src));
+                    return;
+                }
+                Expr::Call(c) if matches!(&*c.func, Expr::Path(p) if is_self(&p.path)) && c.args.len() == st.fields.len() => {
+                    let single = st.fields.len() == 1;
+                    for (k, (f, a)) in st.fields.iter().zip(c.args.iter()).enumerate() {
+                        let pth = if single { path.to_string() } else { join(path, &k.to_string()) };
+                        self.init(a, &f.ty, &pth);
+                    }
+                    return;
+                }
+                _ => {}
             }
         }
+        self.fail(path, format!("Metrics::new: initialiser `{}` of `{}` (type `{}`) is not understood", toks(e), if path.is_empty() { "<value>" } else { path }, toks(ty)));
     }
-    if !inner_default {
-        t.unclassified.push("impl Default for MetricsInner not found".into());
-    }
-    t
 }
 
 /// Lean text of an exact value (`(1 : Rat) / 10`; a Nat field must be a non-negative integer).
@@ -327,19 +455,12 @@ impl Table {
             lean_str(dname),
             dlean
         ));
-        s.push_str("/-- `Metrics::new()` = `Self(Default::default())`: `<MetricsInner as Default>::default()` field by field\n(`Cell<usize>` / `Cell<f64>` default to zero, `Cell<Pacing>` to `<Pacing as Default>::default()`);\n`underflow` is a ghost flag of the model. -/\ndef metricsNew : Metrics :=\n  { ");
-        let mut parts = vec![];
-        for (rf, lf, kind) in METRICS_FIELDS {
-            let (val, src) = match self.metrics_new.iter().find(|(f, _, _)| f == rf) {
-                Some((_, v, src)) => (v.clone(), src.clone()),
-                None => ("-1".to_string(), "<missing>".to_string()),
-            };
-            let val = if *kind == "pacing" && val == "-1" { "{ pacingDefault with sleepFactor := -1 }".to_string() } else if *kind == "nat" && val == "-1" { "18446744073709551616".to_string() } else { val };
-            parts.push(format!("{lf} := {val} /- {rf}: {} -/", src.replace("-/", "- /")));
-        }
-        parts.push("underflow := false".to_string());
-        s.push_str(&parts.join(",\n    "));
-        s.push_str(" }\n\n");
+        let row = |(p, v, src): &(String, String, String)| format!("({}, {} /- {} -/)", lean_str(p), v, src.replace("-/", "- /"));
+        s.push_str(&format!(
+            "/-- The numeric state cells of the value `Metrics::new()` builds, with their initial values: the\nconstructor's expression evaluated structurally (`Default` derives / impls followed through `Rc`, `Cell`\nand nested private structs; path = field names). -/\ndef metricsNewCells : List (String × Rat) := [\n  {}]\n\n/-- The `Pacing` cells of that value. -/\ndef metricsNewPacings : List (String × Pacing) := [\n  {}]\n\n",
+            self.metrics_cells.iter().map(row).collect::<Vec<_>>().join(",\n  "),
+            self.metrics_pacings.iter().map(row).collect::<Vec<_>>().join(",\n  ")
+        ));
         s.push_str(&format!(
             "def pacingUnclassified : List String := {}\n\nend GcArena.Generated\n",
             lean_list(&self.unclassified.iter().map(|x| lean_str(x)).collect::<Vec<_>>())
@@ -373,7 +494,7 @@ impl Table {
             "{{\"consts\":[{}],\"default_impl\":{},\"metrics_new\":[{}],\"unclassified\":[{}]}}",
             consts.join(","),
             json_str(&self.default_impl),
-            self.metrics_new.iter().map(|(f, v, src)| format!("{{\"field\":{},\"value\":{},\"src\":{}}}", json_str(f), json_str(v), json_str(src))).collect::<Vec<_>>().join(","),
+            self.metrics_cells.iter().chain(self.metrics_pacings.iter()).map(|(f, v, src)| format!("{{\"field\":{},\"value\":{},\"src\":{}}}", json_str(f), json_str(v), json_str(src))).collect::<Vec<_>>().join(","),
             self.unclassified.iter().map(|x| json_str(x)).collect::<Vec<_>>().join(",")
         )
     }
